@@ -33,8 +33,14 @@ class Report:
         self.assumptions = []
         self.floors = []        # (name, actual, floor)
         self.notes = []
+        self._seen = {}
 
     def add(self, key, rule, ok, detail="", at=None, nontrivial=True):
+        # duplicate keys (same rule instance shape at several sites of one function) get an ordinal
+        n = self._seen.get(key, 0) + 1
+        self._seen[key] = n
+        if n > 1:
+            key = "%s#%d" % (key, n)
         self.obs.append(Ob(key, rule, ok, detail, at, nontrivial))
 
     def floor(self, name, actual, minimum):
